@@ -404,7 +404,32 @@ def _g_body(k):
     return True
 
 
+# ------------------------------------------------------------------ C03.h first call of an interpreter, then the observed exports
+FRESH_REQ = [{'default': {}, 'extended': {'encoding': 'eKern'}}, {'default': {}, 'extended': {'encoding': 'eKern'}}]
+
+
+def ob_h(pre: int, d: int) -> bool:
+    from sv.ref import fresh
+    assume(0 <= pre < len(fresh.PRELUDES) and 0 <= d < 2)
+    return _h_body(choose(pre, len(fresh.PRELUDES)), choose(d, 2))
+
+
+@native
+def _h_body(pre, d):
+    from sv.ref import fresh, docs as _docs
+    P = _docs.pool()
+    D, other = (P[0], P[1]) if d == 0 else (P[1], P[0])
+    bad = fresh.mismatches(pre, D, other.text(), FRESH_REQ[d])
+    check(not bad, '; '.join(bad)[:1500])
+    return True
+
+
 OBLIGATIONS = [
+    Ob(id='C03.h', fn=ob_h, title='histories from the first call of a fresh interpreter: the default (and extended) export still conserves every cell',
+       shard_of=lambda pre, d: pre, shards={'quick': 5, 'thorough': 5}, budget_s={'quick': 150, 'thorough': 600}, native_body=True,
+       witnesses=[{'pre': 0, 'd': 0}], min_confirmed=15, enumerated='first call (10 kinds, incl. none), document (2)',
+       realized_at=['fresh python interpreter per history (subprocess)'],
+       bounds={'quick': '10 first calls x 2 pool documents (kern + text with chord / decorations / accidentals; kern + dynam + harm)', 'thorough': 'same'}),
     Ob(id='C03.g', fn=ob_g, title='grid and cell content of long scores (hundreds to thousands of lines) against the cell model',
        shard_of=lambda k: k, shards={'quick': 2, 'thorough': 3}, budget_s={'quick': 120, 'thorough': 600}, native_body=True,
        witnesses=[{'k': 0}], min_confirmed=2, enumerated='score length',
